@@ -180,6 +180,12 @@ var tests = []test{
 		ms := monoid.FromOp("ε", cat)
 		mf := monoid.From[int](-7, semigroup.From[int](sub))
 		sg := semigroup.From[string](cat)
+		// a monoid is a semigroup too: wrapping one with another empty element must use the given element
+		mm := monoid.From[int](100, monoid.FromOp(0, sub))
+		ms2 := monoid.From[string]("ω", monoid.FromOp("ε", cat))
+		if mm.Empty() != 100 || ms2.Empty() != "ω" || mm.Combine(mm.Empty(), 1) != 99 || ms2.Combine("a", ms2.Empty()) != "a|ω" {
+			viol(r, "monoid/from-monoid", "monoid.From(100, <monoid with empty 0>): Empty() = %v, From(\"ω\", <monoid with empty ε>): Empty() = %q; want the given elements 100 and ω", mm.Empty(), ms2.Empty())
+		}
 		if mi.Empty() != 42 || ms.Empty() != "ε" || mf.Empty() != -7 {
 			viol(r, "monoid/empty", "Empty() = %v, %q, %v; want 42, ε, -7", mi.Empty(), ms.Empty(), mf.Empty())
 		}
